@@ -270,6 +270,7 @@ func checkC12(c *core.Ctx, l *core.Ledger) {
 
 	// 4. FULL-READ
 	checkNoRawRead(c, l, "FULL-READ", []string{"protocol/binary"})
+	checkReaderAdapters(c, l, "READER-ADAPTER", []string{"protocol/binary", "protocol", "envelope", "internal/envelope"})
 
 	// 5. PAIR
 	checkBorrowPairs(c, l, "PAIR", []string{"protocol/binary"}, func(f *ssa.Function) bool { return true })
@@ -447,6 +448,9 @@ func checkNoRawRead(c *core.Ctx, l *core.Ledger, rule string, rels []string) {
 		k := 0
 		core.Instrs(f, func(in ssa.Instruction) {
 			if isRaw(in) {
+				if passThroughRead(in.(ssa.CallInstruction)) {
+					return // an io.Reader adapter forwarding (n, err) unchanged keeps the contract for its own caller
+				}
 				k++
 				l.Bad(rule, fmt.Sprintf("%s:Read#%d", core.SSAName(f), k), c.Rel(in.Pos()), "a single raw Read on the caller's io.Reader: a short read (legal for any io.Reader) is treated as end of input, so the result depends on how the stream is segmented")
 			}
